@@ -538,6 +538,12 @@ func (t *BPTree) PrefixScan(prefix []byte, offsetNum int, limitNum int) (records
 				break
 			}
 
+			// deleted and expired keys neither appear nor consume offsetNum / limitNum
+			if r, ok := n.pointers[i].(*Record); ok && r.H != nil && r.H.meta != nil &&
+				(r.H.meta.Flag == DataDeleteFlag || r.IsExpired()) {
+				continue
+			}
+
 			if coff < offsetNum {
 				coff++
 				continue
@@ -600,6 +606,12 @@ func (t *BPTree) PrefixSearchScan(prefix []byte, reg string, offsetNum int, limi
 			if !bytes.HasPrefix(n.Keys[i], prefix) {
 				scanFlag = false
 				break
+			}
+
+			// deleted and expired keys neither appear nor consume offsetNum / limitNum
+			if r, ok := n.pointers[i].(*Record); ok && r.H != nil && r.H.meta != nil &&
+				(r.H.meta.Flag == DataDeleteFlag || r.IsExpired()) {
+				continue
 			}
 
 			if coff < offsetNum {
